@@ -35,6 +35,8 @@ type Program struct {
 	asTargets []types.Type
 	effCache  map[string]bool
 	byMethod  map[string][]*ssa.Function
+	bySig     map[string][]*ssa.Function
+	fieldMut  map[string]bool
 }
 
 func loadProgram(repo string, patterns []string) (*Program, error) {
@@ -92,7 +94,11 @@ func loadProgram(repo string, patterns []string) (*Program, error) {
 			P.preds[cf.PkgPath+"."+p.Name] = p
 		}
 		for _, g := range cf.Globals {
-			P.globInv[cf.PkgPath+"."+g.Name] = g
+			if old := P.globInv[cf.PkgPath+"."+g.Name]; old != nil {
+				old.Clauses = append(old.Clauses, g.Clauses...)
+			} else {
+				P.globInv[cf.PkgPath+"."+g.Name] = g
+			}
 		}
 		for k, v := range cf.Guarded {
 			P.guarded[cf.PkgPath+"."+k] = v
@@ -316,8 +322,86 @@ func effectSource(fn *ssa.Function, eff string) bool {
 		return name == "time.Now" || name == "time.Since" || name == "time.Until"
 	case "env":
 		return name == "os.Getenv" || name == "os.LookupEnv" || name == "os.Environ"
+	case "devwrite":
+		// a function outside the repository that is handed something it could write a device through
+		if name == "os.WriteFile" || name == "os.Truncate" {
+			return true
+		}
+		if fn.Blocks != nil && strings.HasPrefix(pkg, modPath) {
+			return false
+		}
+		sig := fn.Signature
+		if sig.Recv() != nil && devWriter(sig.Recv().Type()) {
+			return true
+		}
+		for i := 0; i < sig.Params().Len(); i++ {
+			if devWriter(sig.Params().At(i).Type()) {
+				return true
+			}
+		}
 	}
 	return false
+}
+
+// launders: a device writer converted to an interface that hides WriteAt but through which foreign code can still
+// write (it has a Write-family method) or recover the capability (the empty interface).
+func launders(from, to types.Type) bool {
+	if !devWriter(from) || devWriter(to) {
+		return false
+	}
+	it, ok := to.Underlying().(*types.Interface)
+	if !ok {
+		return false
+	}
+	if it.NumMethods() == 0 {
+		return true
+	}
+	if repoIfaceType(to) {
+		// methods of a repository interface are resolved to their repository implementations wherever they are invoked
+		return false
+	}
+	ms := types.NewMethodSet(to)
+	for i := 0; i < ms.Len(); i++ {
+		switch ms.At(i).Obj().Name() {
+		case "Write", "WriteString", "ReadFrom":
+			return true
+		}
+	}
+	return false
+}
+
+// devWriter: values of this static type can write at an offset of a file or device: WriteAt([]byte, int64) (int, error)
+// or Truncate(int64) error in the method set.
+func devWriter(t types.Type) bool {
+	if s, ok := t.Underlying().(*types.Slice); ok {
+		t = s.Elem()
+	}
+	for _, tt := range []types.Type{t, types.NewPointer(t)} {
+		ms := types.NewMethodSet(tt)
+		for i := 0; i < ms.Len(); i++ {
+			fn, ok := ms.At(i).Obj().(*types.Func)
+			if !ok {
+				continue
+			}
+			sig := fn.Type().(*types.Signature)
+			switch fn.Name() {
+			case "WriteAt":
+				if sig.Params().Len() == 2 && sig.Results().Len() == 2 {
+					return true
+				}
+			case "Truncate":
+				if sig.Params().Len() == 1 && sig.Results().Len() == 1 && types.Identical(sig.Params().At(0).Type(), types.Typ[types.Int64]) &&
+					types.Identical(sig.Results().At(0).Type(), types.Universe.Lookup("error").Type()) {
+					return true
+				}
+			}
+		}
+	}
+	return false
+}
+
+func sigKey(sig *types.Signature) string {
+	return types.TypeString(types.NewSignatureType(nil, nil, nil, sig.Params(), sig.Results(), sig.Variadic()), nil)
 }
 
 // mayEffect: can fn (transitively, through static calls, closures and repo methods of the invoked name) reach a source?
@@ -327,13 +411,19 @@ func (P *Program) mayEffect(fn *ssa.Function, eff string) bool {
 	if P.effCache == nil {
 		P.effCache = map[string]bool{}
 		P.byMethod = map[string][]*ssa.Function{}
+		P.bySig = map[string][]*ssa.Function{}
 		for f := range P.allFnsLocked() {
 			if f.Signature.Recv() != nil {
 				P.byMethod[f.Name()] = append(P.byMethod[f.Name()], f)
 			}
+			// possible targets of a call through a function value: every repository function, method or closure of that type
+			P.bySig[sigKey(f.Signature)] = append(P.bySig[sigKey(f.Signature)], f)
 		}
 	}
 	P.immutMu.Unlock()
+	if fn == nil {
+		return false
+	}
 	key := eff + "|" + fn.String()
 	P.immutMu.Lock()
 	if v, ok := P.effCache[key]; ok {
@@ -366,12 +456,54 @@ func (P *Program) mayEffect(fn *ssa.Function, eff string) bool {
 						return true
 					}
 				}
+				if eff == "devwrite" {
+					// hiding the capability: a device writer converted to an interface that no longer shows WriteAt
+					switch x := in.(type) {
+					case *ssa.MakeInterface:
+						if launders(x.X.Type(), x.Type()) {
+							return true
+						}
+					case *ssa.ChangeInterface:
+						if launders(x.X.Type(), x.Type()) {
+							return true
+						}
+					}
+				}
 				ci, ok := in.(ssa.CallInstruction)
 				if !ok {
 					continue
 				}
 				cc := ci.Common()
+				if eff == "devwrite" {
+					if cc.IsInvoke() && (cc.Method.Name() == "WriteAt" || cc.Method.Name() == "Truncate") {
+						return true
+					}
+					if !cc.IsInvoke() && cc.StaticCallee() == nil {
+						if _, isB := cc.Value.(*ssa.Builtin); !isB {
+							// call through a function value: any repository function of that type may be the target;
+							// a function type that takes a device writer may also be a foreign function
+							if sg, ok := cc.Value.Type().Underlying().(*types.Signature); ok {
+								for i := 0; i < sg.Params().Len(); i++ {
+									if devWriter(sg.Params().At(i).Type()) {
+										return true
+									}
+								}
+								for _, m := range P.bySig[sigKey(sg)] {
+									if rec(m) {
+										return true
+									}
+								}
+							} else {
+								return true
+							}
+						}
+					}
+				}
 				if cc.IsInvoke() {
+					if eff == "devwrite" && !repoIfaceType(cc.Value.Type()) {
+						// a method of a foreign interface (io.Writer, io.Reader ...): output to a caller-supplied sink, not a device write
+						continue
+					}
 					for _, m := range P.byMethod[cc.Method.Name()] {
 						if rec(m) {
 							return true
@@ -400,4 +532,182 @@ func (P *Program) allFnsLocked() map[*ssa.Function]bool {
 		return P.allFns
 	}
 	return P.allRepoFuncs()
+}
+
+// effectWitness: a call chain from fn to a source of eff (debugging aid; same traversal as mayEffect).
+func (P *Program) effectWitness(fn *ssa.Function, eff string) []string {
+	if !P.mayEffect(fn, eff) {
+		return nil
+	}
+	var out []string
+	cur := fn
+	seen := map[*ssa.Function]bool{}
+	for cur != nil && !seen[cur] {
+		seen[cur] = true
+		if effectSource(cur, eff) {
+			out = append(out, cur.String()+" is a source")
+			return out
+		}
+		var next *ssa.Function
+		for _, b := range cur.Blocks {
+			for _, in := range b.Instrs {
+				if next != nil {
+					break
+				}
+				switch x := in.(type) {
+				case *ssa.MakeInterface:
+					if eff == "devwrite" && launders(x.X.Type(), x.Type()) {
+						out = append(out, cur.String()+": converts a device writer to "+x.Type().String())
+						return out
+					}
+				case *ssa.ChangeInterface:
+					if eff == "devwrite" && launders(x.X.Type(), x.Type()) {
+						out = append(out, cur.String()+": converts a device writer to "+x.Type().String())
+						return out
+					}
+				case *ssa.Range:
+					if eff == "maporder" && isMap(x.X.Type()) {
+						out = append(out, cur.String()+": ranges over a map")
+						return out
+					}
+				case *ssa.MakeClosure:
+					if P.mayEffect(x.Fn.(*ssa.Function), eff) {
+						next = x.Fn.(*ssa.Function)
+					}
+				}
+				ci, ok := in.(ssa.CallInstruction)
+				if !ok || next != nil {
+					continue
+				}
+				cc := ci.Common()
+				if eff == "devwrite" {
+					if cc.IsInvoke() && (cc.Method.Name() == "WriteAt" || cc.Method.Name() == "Truncate") {
+						out = append(out, cur.String()+": invokes "+cc.Method.Name()+" at "+describe(P.prog, in.Pos()))
+						return out
+					}
+					if !cc.IsInvoke() && cc.StaticCallee() == nil {
+						if _, isB := cc.Value.(*ssa.Builtin); !isB {
+							if sg, ok := cc.Value.Type().Underlying().(*types.Signature); ok {
+								for _, m := range P.bySig[sigKey(sg)] {
+									if next == nil && P.mayEffect(m, eff) {
+										out = append(out, cur.String()+": calls a function value at "+describe(P.prog, in.Pos())+" -> "+m.String())
+										next = m
+									}
+								}
+								if next != nil {
+									continue
+								}
+							}
+							out = append(out, cur.String()+": calls a function value at "+describe(P.prog, in.Pos()))
+							return out
+						}
+					}
+				}
+				if cc.IsInvoke() {
+					if eff == "devwrite" && !repoIfaceType(cc.Value.Type()) {
+						continue
+					}
+					for _, m := range P.byMethod[cc.Method.Name()] {
+						if P.mayEffect(m, eff) {
+							out = append(out, cur.String()+": invokes "+cc.Method.Name()+" -> "+m.String())
+							next = m
+							break
+						}
+					}
+					continue
+				}
+				if sf := cc.StaticCallee(); sf != nil && P.mayEffect(sf, eff) {
+					out = append(out, cur.String()+": calls "+sf.String())
+					next = sf
+				}
+			}
+		}
+		cur = next
+	}
+	return out
+}
+
+func repoIfaceType(t types.Type) bool {
+	if n, ok := t.(*types.Named); ok && n.Obj().Pkg() != nil {
+		return strings.HasPrefix(n.Obj().Pkg().Path(), modPath)
+	}
+	return false
+}
+
+// dynMayEffect: may a call through a function value of this type reach a source of eff?
+func (P *Program) dynMayEffect(t types.Type, eff string) bool {
+	sg, ok := t.Underlying().(*types.Signature)
+	if !ok {
+		return true
+	}
+	if eff == "devwrite" {
+		for i := 0; i < sg.Params().Len(); i++ {
+			if devWriter(sg.Params().At(i).Type()) {
+				return true
+			}
+		}
+	} else {
+		return true
+	}
+	P.mayEffect(nil, eff)
+	for _, m := range P.bySig[sigKey(sg)] {
+		if P.mayEffect(m, eff) {
+			return true
+		}
+	}
+	return false
+}
+
+// ifaceImplStatus: which in-repo implementations of the invoked interface method carry a func contract with the same
+// modifies clause as the interface contract (those are proved separately), and which do not.
+func (P *Program) ifaceImplStatus(c *ssa.CallCommon, ct *Contract) string {
+	it, ok := c.Value.Type().Underlying().(*types.Interface)
+	if !ok {
+		return "no implementation information"
+	}
+	P.mayEffect(nil, "devwrite")
+	P.immutMu.Lock()
+	if P.byMethod == nil {
+		P.byMethod = map[string][]*ssa.Function{}
+		P.bySig = map[string][]*ssa.Function{}
+		for f := range P.allFnsLocked() {
+			if f.Signature.Recv() != nil {
+				P.byMethod[f.Name()] = append(P.byMethod[f.Name()], f)
+			}
+			P.bySig[sigKey(f.Signature)] = append(P.bySig[sigKey(f.Signature)], f)
+		}
+	}
+	P.immutMu.Unlock()
+	var ok2, missing []string
+	for _, m := range P.byMethod[c.Method.Name()] {
+		if m.Synthetic != "" {
+			continue
+		}
+		rt := m.Signature.Recv().Type()
+		if !types.Implements(rt, it) {
+			continue
+		}
+		ic := P.contracts[m]
+		if ic != nil && modifiesText(ic) == modifiesText(ct) {
+			ok2 = append(ok2, funcDisplay(m))
+		} else {
+			missing = append(missing, funcDisplay(m))
+		}
+	}
+	sort.Strings(ok2)
+	sort.Strings(missing)
+	out := "implementations under a func contract with the same frame: " + strings.Join(ok2, ", ")
+	if len(missing) > 0 {
+		out += "; implementations NOT checked against it: " + strings.Join(missing, ", ")
+	}
+	return out
+}
+
+func modifiesText(c *Contract) string {
+	var parts []string
+	for _, m := range c.Modifies {
+		parts = append(parts, strings.Join(strings.Fields(m.Src), ""))
+	}
+	sort.Strings(parts)
+	return strings.Join(parts, ",")
 }
